@@ -124,9 +124,11 @@ def theorems_of(mod):
         if m and ns and ns[-1] == m.group(1):
             ns.pop()
             continue
-        m = re.match(r"\s*(?:@\[[^\]]*\]\s*)?(?:private\s+|protected\s+)?theorem\s+([\w.'!?₀-₉]+)", line)
-        if m:
-            out.append((".".join(ns + [m.group(1)]), ln))
+        m = re.match(r"\s*(?:@\[[^\]]*\]\s*)?(private\s+|protected\s+)?theorem\s+([\w.'!?₀-₉]+)", line)
+        if m and not (m.group(1) or "").startswith("private"):
+            # `private` theorems are local helpers: not addressable from the audit file; their axioms are accounted for
+            # transitively by the public theorems that use them
+            out.append((".".join(ns + [m.group(2)]), ln))
     return out
 
 
